@@ -147,7 +147,8 @@ def run_kani(crate, harnesses, tag, jobs=8, harness_timeout=600, overall_timeout
         elif undetermined:
             res['verdict'] = 'inconclusive'
             res['reason'] = 'undetermined checks: %s' % undetermined[:3]
-        elif r['status'] != 'Success':
+        elif r['status'] != 'Success' and not (ignored and all(
+                ch['status'] in ('Success', 'Satisfied') or ch['status'] == 'Failure' for ch in r['checks'])):
             res['verdict'] = 'inconclusive'
             res['reason'] = 'status %s / %s' % (r['status'], e.get('exit_status'))
         elif not covers or any(s != 'Satisfied' for _, s in covers):
